@@ -144,8 +144,12 @@ def rotator_geometry_oracle(chk, rng, n):
     from pyroll.core import Profile, Rotator
     for i in range(n):
         a, b = rng.choice([0, 45, 90, 180, 30, -60, 17.5]), rng.choice([45, 90, 180, 12.25])
+        from shapely.geometry import Polygon
+        off = Polygon([(1 + rng.random(), 0.5), (4, 0.5 + rng.random()), (4.5, 3), (2, 2.5 + rng.random())])     # irregular, off the axis
+        tee = Polygon([(-1, -4), (1, -4), (1, 2), (4, 2), (4, 4), (-4, 4), (-4, 2), (-1, 2)])                      # centroid not at the origin
         p = rng.choice([Profile.box(height=2 + rng.random(), width=5, corner_radius=0.3), Profile.diamond(height=3, width=5 + rng.random(), corner_radius=0.2),
-                        Profile.square(side=3 + rng.random(), corner_radius=0.1)])
+                        Profile.square(side=3 + rng.random(), corner_radius=0.1),
+                        Profile.from_polygon(off, {'generic'}), Profile.from_polygon(tee, {'tee'})])
         cls_before = set(p.classifiers)
         r1 = Rotator(rotation=a)
         q = r1.solve(p)
